@@ -45,6 +45,8 @@ struct V {
     ca: u32,
     update: bool,
     carrier: Carrier,
+    /// Ident update only: the previous ident squitter (callsign, tc, ca); None = the sentinel
+    prev: Option<([u32; 8], u32, u32)>,
 }
 
 fn bases() -> Vec<[u32; 8]> {
@@ -69,7 +71,10 @@ fn lines(v: &V, addr: u32) -> Vec<Vec<u8>> {
         Carrier::Ident => {
             if v.update {
                 l.push(hexline(&frames::df11(5, addr, 0)));
-                l.push(hexline(&frames::df17(5, addr, frames::me_ident(2, 6, frames::callsign_codes(SENT)))));
+                match v.prev {
+                    Some((c, tc, ca)) => l.push(hexline(&frames::df17(5, addr, frames::me_ident(tc, ca, c)))),
+                    None => l.push(hexline(&frames::df17(5, addr, frames::me_ident(2, 6, frames::callsign_codes(SENT))))),
+                }
             }
         }
         Carrier::Bds20 { pre, .. } => match pre {
@@ -86,7 +91,7 @@ fn judge(ctx: &mut Ctx, cfg: &Cfg, v: &V, addr: u32, o: &Obs) {
     ctx.eval();
     let want = fields::callsign(&v.chars);
     let key = format!("chars={:?} tc{} ca{}", v.chars, v.tc, v.ca);
-    let case = || json!({"chars": v.chars, "tc": v.tc, "ca": v.ca, "update": v.update, "carrier": match v.carrier { Carrier::Ident => json!("ident"), Carrier::Bds20 { df, pre } => json!({"df": df, "pre": pre}) }, "cfg": cfg.opts, "addr": addr});
+    let case = || json!({"chars": v.chars, "tc": v.tc, "ca": v.ca, "update": v.update, "prev": v.prev.map(|(c, t, a)| json!({"chars": c, "tc": t, "ca": a})), "carrier": match v.carrier { Carrier::Ident => json!("ident"), Carrier::Bds20 { df, pre } => json!({"df": df, "pre": pre}) }, "cfg": cfg.opts, "addr": addr});
     let Obs::Row(s) = o else {
         ctx.violation(&format!("C07/run/{}", cfg.label()), &key, || format!("{}: no row / crash: {o:?}", frame(v, addr).hex()), case);
         return;
@@ -183,14 +188,27 @@ fn run(ctx: &mut Ctx) {
     let mut items: Vec<V> = vec![];
     for (i, chars) in cv.iter().enumerate() {
         for update in [false, true] {
-            items.push(V { chars: *chars, tc: 1 + (i as u32 % 4), ca: (i as u32 / 4) % 8, update, carrier: Carrier::Ident });
+            items.push(V { chars: *chars, tc: 1 + (i as u32 % 4), ca: (i as u32 / 4) % 8, update, carrier: Carrier::Ident, prev: None });
         }
     }
     // TC x CA complete
     for tc in 1..=4 {
         for ca in 0..8 {
             for update in [false, true] {
-                items.push(V { chars: frames::callsign_codes("CAT"), tc, ca, update, carrier: Carrier::Ident });
+                items.push(V { chars: frames::callsign_codes("CAT"), tc, ca, update, carrier: Carrier::Ident, prev: None });
+            }
+        }
+    }
+    // same callsign, changed category / type code: every (tc1, ca1) -> (tc2, ca2)
+    for cs in ["EIN45F", "A"] {
+        let c = frames::callsign_codes(cs);
+        for tc1 in 1..=4 {
+            for ca1 in 0..8 {
+                for tc2 in 1..=4 {
+                    for ca2 in 0..8 {
+                        items.push(V { chars: c, tc: tc2, ca: ca2, update: true, carrier: Carrier::Ident, prev: Some((c, tc1, ca1)) });
+                    }
+                }
             }
         }
     }
@@ -201,7 +219,7 @@ fn run(ctx: &mut Ctx) {
         }
         for df in [20u32, 21] {
             for pre in 0..3u32 {
-                items.push(V { chars: *chars, tc: 0, ca: 0, update: true, carrier: Carrier::Bds20 { df, pre } });
+                items.push(V { chars: *chars, tc: 0, ca: 0, update: true, carrier: Carrier::Bds20 { df, pre }, prev: None });
             }
         }
     }
@@ -249,7 +267,16 @@ fn replay(ctx: &mut Ctx, case: &Value) {
         Some(Value::String(_)) | None => Carrier::Ident,
         Some(c) => Carrier::Bds20 { df: c.get("df").and_then(|x| x.as_u64()).unwrap_or(20) as u32, pre: c.get("pre").and_then(|x| x.as_u64()).unwrap_or(0) as u32 },
     };
-    let v = V { chars, tc: g("tc"), ca: g("ca"), update: case.get("update").and_then(|x| x.as_bool()).unwrap_or(false), carrier };
+    let prev = case.get("prev").filter(|p| !p.is_null()).map(|p| {
+        let mut c = [0u32; 8];
+        if let Some(a) = p.get("chars").and_then(|x| x.as_array()) {
+            for (i, x) in a.iter().enumerate().take(8) {
+                c[i] = x.as_u64().unwrap_or(0) as u32;
+            }
+        }
+        (c, p.get("tc").and_then(|x| x.as_u64()).unwrap_or(0) as u32, p.get("ca").and_then(|x| x.as_u64()).unwrap_or(0) as u32)
+    });
+    let v = V { chars, tc: g("tc"), ca: g("ca"), update: case.get("update").and_then(|x| x.as_bool()).unwrap_or(false), carrier, prev };
     let addr = case.get("addr").and_then(|x| x.as_u64()).map(|a| a as u32).unwrap_or(BASE);
     let ob = single(&cfg, addr, lines(&v, addr));
     crate::run::say(&format!("lines {:?} cfg [{}]: reference callsign {:?}; row callsign {:?} category {:?}", lines(&v, addr).iter().map(|l| String::from_utf8_lossy(l).into_owned()).collect::<Vec<_>>(), cfg.label(), fields::callsign(&chars), ob.row().map(|s| s.ais.clone()), ob.row().map(|s| s.category)));
